@@ -19,7 +19,7 @@ def _exprs_to_axes(exprs):
     values = defaultdict(list)
     for root in exprs:
         for expr in root.nodes():
-            if isinstance(expr, stage3.Axis) and not expr._is_unnamed and not expr.name.startswith("."):
+            if isinstance(expr, stage3.Axis) and not expr._is_unnamed and not expr.name.startswith(".") and not expr.name.startswith("UnexpandedEllipsis("):
                 tokens = expr.name.split(".")
                 values[tokens[0]].append((tuple(int(t) for t in tokens[1:]), expr.value))
 
